@@ -25,7 +25,12 @@ How a site is found (syntactic, pragmatic type inference, see design/C20.md):
   scope is still reported (class must then be `not-hash` with a reason) -- the census over-approximates.
 
 Fingerprint: sha256 of (file, enclosing fn, whitespace-free statement text, index among equal statements in
-that fn) -- independent of line numbers.  Raises TranslatorError only on things it cannot parse at all
+that fn[, early-exit tags]) -- independent of line numbers.  Early-exit tags (`exit_signature`): for a `for` loop
+over a hash container, `break` out of that loop, `return`, an `if`/`while` condition on the `.len()` of something
+that outlives one iteration; and the same (prefixed `derived-`) for every later loop over a local Vec/String that
+the body appended to (such a sequence is in hash order) up to the first `.sort*()` of it, plus positional use of that
+sequence (`truncate`, `first`, indexing, `iter().take(..)`, …).  A site with tags is never classified by an automatic
+rule, and since the tags are part of the fingerprint, adding an early exit to a reviewed loop un-classifies it.  Raises TranslatorError only on things it cannot parse at all
 (unbalanced braces, missing table file, malformed table).
 """
 import os, re, json, hashlib
@@ -731,6 +736,85 @@ def map_names(s):
     return sorted(names)
 
 
+SEQ_DECL = r"\blet\s+(?:mut\s+)?%s\s*(?::\s*(?:Vec|VecDeque|String)\b[^=;]*)?=\s*(?:Vec|VecDeque|String)\s*(?:::\s*<[^;]*?>)?\s*::\s*(?:new|with_capacity)\b|\blet\s+(?:mut\s+)?%s\s*(?::[^=;]*)?=\s*vec!\s*\[|\blet\s+(?:mut\s+)?%s\s*:\s*(?:Vec|VecDeque|String)\b"
+LOOP_HDR = re.compile(r"(?:'\w+\s*:\s*)?(?:for|while|loop)\b")
+
+
+def body_exits(text, prefix="", pattern=""):
+    """order-sensitive control flow of a loop body (scrubbed text between the braces): `break` that leaves THIS loop
+    (not one nested inside), `return`, and `if`/`while` conditions that look at a `.len()`"""
+    tags = set()
+    stack = []          # True = block is a nested loop
+    i, n, last = 0, len(text), 0
+    while i < n:
+        ch = text[i]
+        if ch == "{":
+            hdr = text[last:i]
+            hdr = hdr[max(hdr.rfind(";"), hdr.rfind("}")) + 1:].strip()
+            stack.append(bool(LOOP_HDR.match(hdr)))
+            last = i + 1
+        elif ch == "}":
+            if stack:
+                stack.pop()
+            last = i + 1
+        elif ch == ";":
+            last = i + 1
+        elif text.startswith("break", i) and not (i > 0 and (text[i - 1].isalnum() or text[i - 1] == "_")) \
+                and not (i + 5 < n and (text[i + 5].isalnum() or text[i + 5] == "_")):
+            labelled = re.match(r"break\s+'", text[i:i + 12]) is not None
+            if labelled or not any(stack):
+                tags.add(prefix + "break")
+        elif text.startswith("return", i) and not (i > 0 and (text[i - 1].isalnum() or text[i - 1] == "_")) \
+                and not (i + 6 < n and (text[i + 6].isalnum() or text[i + 6] == "_")):
+            tags.add(prefix + "return")
+        i += 1
+    # a condition on the length of something that lives longer than one iteration (not declared in the body)
+    for cm in re.finditer(r"(?<![A-Za-z0-9_])(?:if|while)\b([^{;]*)\{", text):
+        for lm in re.finditer(r"([A-Za-z_]\w*)(?:\s*\.\s*\w+(?:\(\s*\))?)*?\s*\.\s*len\s*\(\s*\)", cm.group(1)):
+            base = lm.group(1)
+            be = re.escape(base)
+            per_iteration = base != "self" and (
+                re.search(r"\b%s\b" % be, pattern) is not None or
+                re.search(r"\blet\s+(?:\(\s*)?(?:mut\s+)?%s\b|\b(?:Some|Ok|Err)\s*\(\s*(?:mut\s+|ref\s+)?%s\b|\bfor\s+\(?\s*(?:mut\s+)?%s\b|[|,(]\s*%s\s*[|,)]" % (be, be, be, be), text) is not None)
+            if not per_iteration:
+                tags.add(prefix + "len-cond")
+    return tags
+
+
+def exit_signature(s, fn, open_brace, close_brace):
+    """tags of order-sensitive constructs for the `for` loop whose body is s[open_brace+1:close_brace]: in the body
+    itself, and -- for every local Vec/VecDeque/String the body appends to (it then holds elements in hash order) --
+    in later loops over that sequence and in positional operations on it, up to the first `.sort*(` of it"""
+    body = s[open_brace + 1:close_brace]
+    hdr_start = max(s.rfind(";", 0, open_brace), s.rfind("{", 0, open_brace), s.rfind("}", 0, open_brace)) + 1
+    hm = re.match(r"\s*(?:'\w+\s*:\s*)?for\s+(.+?)\s+in\s", s[hdr_start:open_brace], re.S)
+    tags = body_exits(body, "", hm.group(1) if hm else "")
+    if fn is None:
+        return sorted(tags)
+    fn_text_start, fn_end = fn.body_start, fn.end
+    names = set(re.findall(r"\b([A-Za-z_]\w*)\s*\.\s*(?:push|push_str|push_back|push_front|extend|extend_from_slice|append)\s*\(", body))
+    names |= set(re.findall(r"\b([A-Za-z_]\w*)\s*\+=", body))
+    for x in sorted(names):
+        xe = re.escape(x)
+        if not re.search(SEQ_DECL % (xe, xe, xe), s[fn_text_start:open_brace]):
+            continue
+        region_end = fn_end
+        m = re.search(r"\b%s\s*\.\s*sort\w*\s*\(" % xe, s[close_brace:fn_end])
+        if m:
+            region_end = close_brace + m.start()
+        region = s[close_brace:region_end]
+        for lm in re.finditer(r"\bfor\s+([^;{}]+?)\s+in\s+(?:&\s*(?:mut\s+)?)?%s\b[^;{}]*\{" % xe, region):
+            ob = close_brace + lm.end() - 1
+            cb = match_close_safe(s, ob)
+            if cb > 0:
+                tags |= body_exits(s[ob + 1:cb], "derived-", lm.group(1))
+        if re.search(r"\b%s\s*\.\s*(?:truncate|first|last|pop|remove|swap_remove|drain|split_off|split_at|get|resize)\s*\(" % xe, region) \
+                or re.search(r"\b%s\s*\[" % xe, region) \
+                or re.search(r"\b%s\s*\.\s*(?:iter|into_iter|iter_mut|chars|bytes)\s*\(\s*\)\s*\.\s*(?:take|skip|nth|next|last|position|find|find_map|take_while|skip_while|step_by)\s*\(" % xe, region):
+            tags.add("derived-positional")
+    return sorted(tags)
+
+
 def find_sites(cen, rel, s, fns):
     sites = []
     seen_pos = set()
@@ -750,8 +834,13 @@ def find_sites(cen, rel, s, fns):
             return
         seen_pos.add(key)
         line = s.count("\n", 0, pos) + 1
+        exits = []
+        if stmt.startswith("for") and b < len(s) and s[b] == "{":
+            cl2 = match_close_safe(s, b)
+            if cl2 > 0:
+                exits = exit_signature(s, f_out, b, cl2)
         sites.append({"file": rel, "fn": f_out.ident if f_out else "<top>", "how": how, "recv": re.sub(r"\s+", "", recv),
-                      "stmt": stmt, "line": line, "resolved": kind != "name-only", "pos": pos,
+                      "stmt": stmt, "line": line, "resolved": kind != "name-only", "pos": pos, "exits": exits,
                       "after": re.sub(r"\s+", " ", s[b:b + 400]), "setnames": setnames, "mapnames": mapnames, "body": re.sub(r"\s+", "", body)[:600],
                       "fntext": re.sub(r"\s+", "", s[f_out.start:f_out.end])[:6000] if (f_out and body) else ""})
 
@@ -863,7 +952,10 @@ def census_uncached(repo):
         key = (st["file"], st["fn"], st["stmt"], st["how"], st["recv"])
         k = counts.get(key, 0)
         counts[key] = k + 1
-        h = hashlib.sha256(("\x1f".join(key) + "\x1f%d" % k).encode()).hexdigest()
+        # order-sensitive control flow in the loop body / in loops over sequences filled by the loop is part of the
+        # identity of the site: a `break` that appears later makes it a new, unreviewed site
+        ex = ("\x1fexits=" + ",".join(st["exits"])) if st.get("exits") else ""
+        h = hashlib.sha256(("\x1f".join(key) + "\x1f%d" % k + ex).encode()).hexdigest()
         st["fp"] = h[:12]
     return sites, [os.path.join(repo, r) for r in sorted(parsed)]
 
@@ -882,6 +974,10 @@ def auto_class(st):
     body = st.get("body", "")
     sets = set(st.get("setnames", []))
     is_for = stmt.startswith("for")
+    if st.get("exits"):
+        # early exit / length-dependent control flow inside the iteration (or inside a loop over a sequence that the
+        # iteration filled, unsorted): which elements are processed depends on the order.  Never automatic.
+        return None
     if is_for and body:
         # for x in <hash> { [if cond {] set.insert(expr); [}] }   -- union of sets
         mm = re.fullmatch(r"(?:if[^{};]*\{)?([\w.]+)\.insert\([^;{}]*\);\}?", body)
@@ -1032,6 +1128,7 @@ def generate(repo):
             if ac:
                 cls = ac[0]
         st["class"] = cls
+        st["by_table"] = bool(e)
         if cls is None:
             unclassified.append(st)
         else:
@@ -1056,6 +1153,16 @@ def generate(repo):
     L.append("def unclassified : List Nat := [%s]" % ", ".join(str(int(s["fp"], 16)) for s in unclassified))
     for i, c in enumerate(CLASSES):
         L.append("def count_%s : Nat := %d" % (lean_ident(c), per_class[c]))
+    L.append("/-- sites whose loop body (or a later loop over a sequence the body filled, before any sort) leaves early")
+    L.append("(`break`, `return`), branches on the length of an accumulator, or uses the filled sequence positionally:")
+    L.append("(fingerprint, class id, 1 = classified by a reviewed table entry / 0 = by an automatic rule).  The fingerprint of")
+    L.append("such a site includes these tags, and no automatic rule applies to it. -/")
+    L.append("def earlyExit : List (Nat × Nat × Nat) := [%s]" % ", ".join(
+        "(%d, %d, %d)" % (int(s["fp"], 16), CLASSES.index(s["class"]) if s["class"] else 99, 1 if s["by_table"] else 0)
+        for s in sites if s.get("exits")))
+    for s_ in sites:
+        if s_.get("exits"):
+            L.append("-- EARLY-EXIT %s %s:%d fn %s : %s  [%s]" % (s_["fp"], s_["file"], s_["line"], s_["fn"], s_["stmt"][:100], ",".join(s_["exits"])))
     L.append("/-- table entries whose site no longer exists (informative; never an obligation) -/")
     L.append("def staleEntries : Nat := %d" % len(stale))
     L.append("")
